@@ -315,7 +315,11 @@ def run_export_case(case, workdir):
             res["flat"] = [1, err[0]]
             res["fail"] = "export raised %r" % (err[1],)
             rf = root_format(ds)
-            if (err[0] == 1 and rf == "tdms" and nonslice_feats):
+            no_filter_arr = (not filtered) and (
+                skip or not lens or min(lens) == max(lens))
+            if (err[0] == 1 and rf == "tdms" and nonslice_feats
+                    and any(kind_of(f) == 3 for f in nonslice_feats)
+                    and (ds.format == "hierarchy" or no_filter_arr)):
                 res["finding"] = F_NONSLICE
             elif (err[0] == 2 and filtered and lens and lmin < n
                   and (skip or min(lens) == max(lens))
